@@ -63,6 +63,10 @@ CFG = {
     "1-same-bare": (1, ["k"], ["k"], None, False),
     # the payload of every other right item is None: an entry holding None is an entry (it is merged like any other)
     "1-same-nonepayload": (1, ["k"], ["k"], "p?", True),
+    # ragged right items: only the first right item has the entry 'extra' (it belongs to that item alone)
+    "1-same-ragged": (1, ["k"], ["k"], "p!", True),
+    # key names crossed between the two sides: the left 'k' is the right 'k2' and the other way round
+    "2-crossed": (2, [["k", "k2"], ["k2", "k"]], ["k2", "k"], "p", True),
     "1-ren-bare": (1, [["k", "rk"]], ["rk"], None, False),
     "2-same": (2, ["k", "k2"], ["k", "k2"], "p", True),
     "2-same-clash": (2, ["k", "k2"], ["k", "k2"], "id", True),
@@ -143,7 +147,11 @@ def left_item(nk, combo, i):
 
 def right_item(rnames, pkey, combo, j):
     item = {name: v for name, v in zip(rnames, combo)}
-    if pkey is not None and pkey.endswith("?"):
+    if pkey is not None and pkey.endswith("!"):
+        item[pkey[:-1]] = f"R{j}"
+        if j == 0:
+            item["extra"] = 5
+    elif pkey is not None and pkey.endswith("?"):
         item[pkey[:-1]] = None if j % 2 == 0 else f"R{j}"
         item["rid"] = j
     elif pkey is not None:
